@@ -222,7 +222,8 @@ impl<'a> Gen<'a> {
             self.ctx.entry_types(info.base.name).into_iter().find(|j| (self.ctx.entries[*j].info)().kind == "FF")
         });
         let body = self.fields(r, fwho, 4);
-        let disc = if body.is_empty() && r.chance(1, 3) { *r.pick(&[" = 3", " = 1 + 2", " = -1", " = FOO as isize"]) } else { "" };
+        // explicit discriminants, on field-carrying variants too (legal with a primitive repr)
+        let disc = if r.chance(1, 3) { *r.pick(&[" = 3", " = 1 + 2", " = -1", " = FOO as isize"]) } else { "" };
         format!("{} V{}{}{}", a, idx, body, disc)
     }
 
@@ -327,11 +328,25 @@ pub fn case_from_source(ctx: &Ctx, me: usize, src: &str, no_sim: bool) -> Option
     }
     let (el, ans, attrs, ident): (Sx, String, Vec<syn::Attribute>, String) = match &e.run {
         OuterRun::Fdi(f) => {
-            let di: syn::DeriveInput = syn::parse_str(src).ok()?;
+            let mut di: syn::DeriveInput = syn::parse_str(src).ok()?;
+            if let syn::Data::Struct(s) = &mut di.data {
+                for fld in s.fields.iter_mut() {
+                    if ser::toks(&fld.ty).len() % 3 == 0 {
+                        let span = syn::spanned::Spanned::span(&fld.ty);
+                        fld.ty = syn::Type::Group(syn::TypeGroup { group_token: syn::token::Group { span }, elem: Box::new(fld.ty.clone()) });
+                    }
+                }
+            }
             (tagged("di", vec![ser::derive_input(&di)]), f(&di), all_attrs_of_di(&di), di.ident.to_string())
         }
         OuterRun::Ff(f) => {
-            let fld = syn::parse_str::<NamedField>(src).map(|x| x.0).or_else(|_| syn::parse_str::<UnnamedField>(src).map(|x| x.0)).ok()?;
+            let mut fld = syn::parse_str::<NamedField>(src).map(|x| x.0).or_else(|_| syn::parse_str::<UnnamedField>(src).map(|x| x.0)).ok()?;
+            // every fifth field type arrives inside an invisible group, as a `$t:ty` fragment does
+            // (decided by the type alone, so that all partitions of one group see the same element)
+            if ser::toks(&fld.ty).len() % 3 == 0 {
+                let span = syn::spanned::Spanned::span(&fld.ty);
+                fld.ty = syn::Type::Group(syn::TypeGroup { group_token: syn::token::Group { span }, elem: Box::new(fld.ty.clone()) });
+            }
             (tagged("fld", vec![ser::field(&fld)]), f(&fld), fld.attrs.clone(), String::new())
         }
         OuterRun::Fv(f) => {
